@@ -310,7 +310,9 @@ Fixpoint p_search_key (d : nat) (pr : params) : parser unit :=
     loop F not_step tt ;;;
     isseq <- try_ (p_seqset ;;; ret true) (fun _ => ret false) ;;
     if isseq then ret tt else
-    islist <- try_ (p_list None (p_expected [p_search_key d' pr]) ;;; ret true)
+    (* an empty key list is refused (139a702), outside the try *)
+    islist <- try_else (p_list None (p_expected [p_search_key d' pr]))
+                   (fun l => guard (negb (is_empty l)) FPlain ;;; ret true)
                    (fun k => match k with
                              | FUnexpected => fail FUnexpected
                              | _ => ret false
